@@ -328,13 +328,6 @@ def check(ctx):
     from . import c01_lemmas, c01_tables
     c01_lemmas.check(ctx, rt)
     c01_tables.check(ctx, rt)
-    from .. import tables
-    tables.check(ctx, "C01.j", [
-        ("RecordTensor", "read", "plain", "", "the slot `offset` steps behind the write position"),
-        ("RecordTensor", "write", "plain", "", "one slot overwritten (in place, or by splicing a cast copy), nothing else touched"),
-        ("RecordTensor", "readrange", "plain", "", "`length` consecutive slots ending / starting `offset` steps back, time last"),
-        ("RecordTensor", "writerange", "plain", "", "the slots readrange would read, overwritten with the cast observations"),
-    ])
     ctx.assume("torch.cat / gather / scatter / roll / index assignment implement their documented semantics; index assignment casts to the storage dtype")
     ctx.assume("the stored pointer is a residue in [0, recordsz) (established by initialize/reset = 0 and preserved by incr/decr/align: L3, C01.c)")
 
